@@ -56,7 +56,14 @@ def check(name, which):
         print('/repo is not clean'); return 2
     rc, out = sh('git -C /repo apply %s' % os.path.join(d, 'patch.diff'))
     if rc != 0:
-        print('patch does not apply to /repo:', out); return 2
+        # a later fix: commit changed the same lines: take the touched files as they were when the change was seeded
+        # (this also undoes that fix in the scratch state, so its own rule may fire as well)
+        files = [l[6:].strip() for l in open(os.path.join(d, 'patch.diff')) if l.startswith('+++ b/')]
+        rc2, out2 = sh('git -C /repo checkout %s -- %s && git -C /repo apply %s' % (m['base'], ' '.join(files), os.path.join(d, 'patch.diff')))
+        if rc2 != 0:
+            sh('git -C /repo checkout HEAD -- . ; git -C /repo reset -q')
+            print('patch does not apply to /repo:', out, out2); return 2
+        print('%s: (applied on the seeded base version of %s: a later fix touched the same lines)' % (name, ' '.join(files)))
     try:
         target = m['property'] if which != 'all' else 'all'
         rc, out = sh('%s/bin/seatalint check %s -verif /tmp/seeded_verif' % (ROOT, target))
@@ -75,7 +82,7 @@ def check(name, which):
         RESULT[name] = sorted({l.split()[1] for v in caught.values() for l in v})
         return 0
     finally:
-        sh('git -C /repo checkout -- .')
+        sh('git -C /repo reset -q; git -C /repo checkout HEAD -- .')
         sh('git -C /repo clean -fdq')
 
 RESULT = {}
